@@ -1,5 +1,6 @@
 import EmmyVerif.Lemmas.TyParse
 import EmmyVerif.Model.TyText
+import EmmyVerif.Lemmas.TyConv
 /-!
 # C17 — Rendered types read back as the same type
 
@@ -12,8 +13,9 @@ Full statement: `fits t → parseTy (render t) = some (norm t)` with `norm t` eq
 of union members and the kind (inferred / doc) of literal constants.
 Proved: the parser reads back exactly the syntax tree the renderer laid out, for every type that fits
 (`C17_parse_render_partial`), hence no union / optional / array is ever regrouped and no literal
-token changes; `reread` of atoms is the identity (`C17_reread_atom`). Missing: the proof that the
-semantic conversion of that tree (`ofType ∘ renderCst`) is `norm` for compound types — compared on
+token changes; for atoms and arrays of atoms the full statement `parseTy (render t) = some t` holds
+(`C17_parse_render_arrays`, `C17_reread_atom`). Missing: the proof that the semantic conversion of the
+tree (`ofType ∘ renderCst`) is `norm` for unions, optionals, `table<…>` and records — compared on
 generated types with the implementation on every run instead.
 -/
 namespace TyM
@@ -49,6 +51,19 @@ theorem C17_reread_atom (e : Env) (t : Ty)
   · simp [reread, renderCst, toCst, ofType, ofSimple, ofRest, ofPrim, iter]
   · simp [reread, renderCst, toCst, ofType, ofSimple, ofRest, ofPrim, iter]
   · simp [reread, renderCst, toCst, ofType, ofSimple, ofRest, ofPrim, iter, hn]
+
+/-- **parse ∘ render = id** at full strength for the union-free core: basic kinds (except `unknown`),
+doc literals (negative integers included — parenthesised as array elements), references not named like
+a basic kind, and arrays of these nested to any depth the renderer does not truncate. -/
+theorem C17_parse_render_arrays (e : Env) (t : Ty) (ts : List Tok) (hc : cv t = true)
+    (h : render t = some ts) : parseTy e ts = some t := by
+  rw [C17_parse_render_partial e t ts h]
+  unfold render at h
+  cases hr : renderCst t with
+  | none => simp [hr] at h
+  | some c =>
+    simp only [reread, hr, Option.map_some, Option.some.injEq]
+    exact conv_array_free e t hc _ _ _ c hr
 
 /-- the layout before the fix `aced4e0` (`boolean?[]`) is not even a complete type for the parser:
 the `[]` is left over -/
